@@ -152,6 +152,10 @@ type simschedState struct {
 	spinSleeps uint64 // virtual-time sleeps injected into spinning runs
 	spinLevel  uint32
 	spinEnd    int64
+	pct        bool   // PCT-style priority scheduling instead of uniform picks
+	pctDepth   uint32
+	pctGen     uint32
+	pctK       [8]uint64 // change points, in yield sites
 	traceOn    bool   // record the call stack of every yield site (debugging)
 	ntrace     uint32
 	ndec       uint32 // decisions recorded / consumed
@@ -160,6 +164,16 @@ type simschedState struct {
 }
 
 var simsched simschedState
+
+const simPCTTab = 1 << 15
+
+type simPCTEntry struct {
+	goid uint64
+	prio uint32
+	gen  uint32
+}
+
+var simPCT [simPCTTab]simPCTEntry
 
 const simTraceMax = 1 << 19
 
@@ -260,6 +274,16 @@ func simEnable(schedSeed, auxSeed uint64, yieldThr uint32) {
 	simsched.sel = simMix(auxSeed, 2)
 	simsched.mapr = simMix(auxSeed, 3)
 	simsched.yieldThr = yieldThr
+	if simsched.pct {
+		simsched.pctGen++
+		steps := simsched.pctK[0]
+		if steps < 1 {
+			steps = 1
+		}
+		for i := uint32(0); i < simsched.pctDepth; i++ {
+			simsched.pctK[i] = 1 + simNext(&simsched.sched)%steps
+		}
+	}
 	simsched.picks, simsched.yields, simsched.yieldSites, simsched.multi = 0, 0, 0, 0
 	simsched.hash, simsched.diverge = 0, 0
 	simsched.spinSites, simsched.spinNow, simsched.spinSleeps = 0, -1, 0
@@ -273,6 +297,56 @@ func simEnable(schedSeed, auxSeed uint64, yieldThr uint32) {
 	gp.preempt = false
 	gp.stackguard0 = gp.stack.lo + stackGuard
 	simsched.enabled = true
+}
+
+// simSetPCT selects PCT-style scheduling for the next simEnable..simDisable
+// window (Burckhardt et al., "A Randomized Scheduler with Probabilistic
+// Guarantees of Finding Bugs"): every goroutine gets a random priority when it
+// is first seen, the runnable goroutine with the highest priority always runs,
+// and at depth randomly chosen scheduling points (uniform in [1, steps]) the
+// running goroutine drops to the lowest priority. depth 0 switches it off.
+//
+//go:linkname simSetPCT
+func simSetPCT(depth, steps uint32) {
+	if depth > 8 {
+		depth = 8
+	}
+	simsched.pctDepth = depth
+	simsched.pct = depth > 0
+	for i := range simsched.pctK {
+		simsched.pctK[i] = uint64(steps) // placeholder; drawn in simEnable
+	}
+}
+
+// simPrio returns (assigning it on first sight) the PCT priority of gp.
+func simPrio(gp *g) uint32 {
+	id := gp.goid
+	i := uint32(id*0x9e3779b97f4a7c15>>40) & (simPCTTab - 1)
+	for n := 0; n < 64; n++ {
+		e := &simPCT[(i+uint32(n))&(simPCTTab-1)]
+		if e.gen == simsched.pctGen && e.goid == id {
+			return e.prio
+		}
+		if e.gen != simsched.pctGen {
+			e.gen, e.goid = simsched.pctGen, id
+			e.prio = simsched.pctDepth + 1 + uint32(simNext(&simsched.sched)>>34)
+			return e.prio
+		}
+	}
+	return simsched.pctDepth + 1 + uint32(id*2654435761)>>2
+}
+
+func simSetPrio(gp *g, prio uint32) {
+	simPrio(gp)
+	id := gp.goid
+	i := uint32(id*0x9e3779b97f4a7c15>>40) & (simPCTTab - 1)
+	for n := 0; n < 64; n++ {
+		e := &simPCT[(i+uint32(n))&(simPCTTab-1)]
+		if e.gen == simsched.pctGen && e.goid == id {
+			e.prio = prio
+			return
+		}
+	}
 }
 
 // simSetPlayback arms scripted-decision playback for the next simEnable..
@@ -312,6 +386,7 @@ func simGetDecisions(p *uint8, n int) (total int, overflow bool) {
 func simDisable() (picks, multi, yields, sites, hash, diverge, spins uint64) {
 	simsched.enabled = false
 	simsched.play = false
+	simsched.pct = false
 	return simsched.picks, simsched.multi, simsched.yields, simsched.yieldSites, simsched.hash, simsched.diverge, simsched.spinSleeps
 }
 
@@ -407,6 +482,19 @@ func simYield() {
 			timeSleep(d)
 		}
 	}
+	if simsched.pct {
+		for i := uint32(0); i < simsched.pctDepth; i++ {
+			if simsched.yieldSites == simsched.pctK[i] {
+				simSetPrio(gp, simsched.pctDepth-i)
+			}
+		}
+		pp := mp.p.ptr()
+		if pp.runnext != 0 || pp.runqhead != pp.runqtail || !sched.runq.empty() {
+			simsched.yields++
+			mcall(gosched_m)
+		}
+		return
+	}
 	var d uint32
 	if simsched.play {
 		d = simDecide(0, 2)
@@ -490,11 +578,20 @@ func simPick(pp *p) *g {
 		if nn > 255 {
 			nn = 255
 		}
-		var draw uint32
-		if !simsched.play {
-			draw = simRandn(&simsched.sched, nn)
+		if simsched.pct {
+			best := uint32(0)
+			for i := uint32(0); i < n; i++ {
+				if pr := simPrio(pp.runq[(h+i)%L].ptr()); pr > best {
+					best, k = pr, i
+				}
+			}
+		} else {
+			var draw uint32
+			if !simsched.play {
+				draw = simRandn(&simsched.sched, nn)
+			}
+			k = simDecide(draw, nn)
 		}
-		k = simDecide(draw, nn)
 		simsched.hash = (simsched.hash ^ (uint64(n)<<8 | uint64(k))) * 1099511628211
 	}
 	gp := pp.runq[(h+k)%L].ptr()
